@@ -129,6 +129,7 @@ func runC04(c *core.Ctx) {
 
 	c04TypeCodes(c)
 	c04Decoders(c)
+	c04KeyConstructors(c)
 }
 
 func checkC04(c *core.Ctx, pc pcase) {
@@ -264,6 +265,49 @@ func c04TypeCodes(c *core.Ctx) {
 		c.Exhaustive("all 65,536 type codes through " + o.name)
 	}
 	c.Nontrivial([]byte("typecodes"))
+}
+
+// c04KeyConstructors: the key decoders at EVERY input length 0..400 (exact-capacity slices, so a
+// read past the length is an out-of-range access), for every signing / crypto type code 0..12.
+func c04KeyConstructors(c *core.Ctx) {
+	const maxLen = 400
+	c.Job("key-constructors", 13*(maxLen+1), func(i int, r *core.Rand) {
+		t, n := i/(maxLen+1), i%(maxLen+1)
+		data := r.Bytes(n)
+		data = data[:n:n]
+		in := []byte(fmt.Sprintf("type %d len %d", t, n))
+		sh := gen.Shape{"code": t, "len": n, "class": "key-constructor"}
+		for _, o := range []struct {
+			name string
+			fn   func()
+		}{
+			{"key_certificate.ConstructSigningPublicKeyByType", func() { key_certificate.ConstructSigningPublicKeyByType(data, t) }},
+			{"key_certificate.KeyCertificate.ConstructSigningPublicKey", func() {
+				if kc, err := key_certificate.NewKeyCertificateWithTypes(t, 4); err == nil && kc != nil {
+					kc.ConstructSigningPublicKey(data)
+				}
+				if kc, _, err := key_certificate.NewKeyCertificate(rm.KeyCert(t, 0, nil).Encode()); err == nil && kc != nil {
+					kc.ConstructSigningPublicKey(data)
+				}
+			}},
+			{"key_certificate.KeyCertificate.ConstructPublicKey", func() {
+				if kc, err := key_certificate.NewKeyCertificateWithTypes(7, t); err == nil && kc != nil {
+					kc.ConstructPublicKey(data)
+				}
+				if kc, _, err := key_certificate.NewKeyCertificate(rm.KeyCert(0, t, nil).Encode()); err == nil && kc != nil {
+					kc.ConstructPublicKey(data)
+				}
+			}},
+		} {
+			panicked, pv, stack := c.Call(o.name, in, o.fn)
+			c.Eval(1)
+			if panicked {
+				reportPanic(c, "C04", o.name, sh, in, pv, stack)
+			}
+		}
+		c.Nontrivial([]byte("keyctor"), in)
+	})
+	c.Exhaustive("key constructors at every input length 0..400 for type codes 0..12")
 }
 
 func c04Decoders(c *core.Ctx) {
